@@ -6,7 +6,7 @@
    Proofs: C19_Proofs.v (non-vacuity examples ex_greedy, ex_order_ok, ex_sparse_size there).
    Distances are over Q, vertices are indices; the farthest-point order pi is ANY list (theorems 1-3 need nothing about it). *)
 From Coq Require Import List ZArith QArith Bool Znumtheory.
-Require Import Reduce ReduceExec C19_Model C19_Proofs.
+Require Import Reduce ReduceExec C19_Model C19_Proofs C19_Proofs2.
 Import ListNotations.
 Open Scope Q_scope.
 
@@ -55,6 +55,27 @@ Theorem C19_sparse_simplices_wellformed :
   increasingb s = true /\ s <> [] /\ forall v, In v s -> In v pi.
 Proof. exact sparse_simplices_wf. Qed.
 Print Assumptions C19_sparse_simplices_wellformed.
+
+(* 2c / 3c. the same two clauses for the model that FOLLOWS THE TRAVERSAL of the simplex tree ([sparse_complex_trie]:
+   siblings_expansion_with_blockers with its reverse loops and its look-ups of the borders in the tree built so far when
+   epsilon < 1; siblings_expansion / create_expansion / intersection when epsilon >= 1).  For epsilon >= 1 the closure under
+   faces of the traversal model is the completeness of the plain flag expansion (property C04) and is not re-proved here: it is
+   proved for the level-wise model (theorem 3) and the two models are compared on every generated input. *)
+Theorem C19_trie_subcomplex_never_earlier :
+  forall (d : nat -> nat -> Q), (forall u v, d u v == d v u) ->
+  forall (eps : Q), 0 < eps ->
+  forall (N : nat) (pi : list nat) (mini maxi : option Q) (dim_max : Z) (s : list nat) (f : Q),
+  In (s, f) (sparse_complex_trie d eps N pi mini maxi dim_max) -> in_rips d s f.
+Proof. intros d Hs eps He. exact (sparse_trie_in_rips d Hs eps He). Qed.
+Print Assumptions C19_trie_subcomplex_never_earlier.
+
+Theorem C19_trie_valid_filtration_with_blockers :
+  forall (d : nat -> nat -> Q), (forall u v, d u v == d v u) -> (forall u v, 0 <= d u v) ->
+  forall (eps : Q), 0 < eps ->
+  forall (N : nat) (pi : list nat) (mini maxi : option Q) (dim_max : Z),
+  eps < 1 -> valid (sparse_complex_trie d eps N pi mini maxi dim_max).
+Proof. intros d Hs Hn eps He. exact (sparse_trie_valid_blk d Hs Hn eps He). Qed.
+Print Assumptions C19_trie_valid_filtration_with_blockers.
 
 (* 4. the insertion radii of ANY farthest-point order (any start, any tie-breaking; also a prefix of one) never increase *)
 Theorem C19_radii_nonincreasing : forall (d : nat -> nat -> Q) (N : nat) (pi : list nat),
